@@ -9,6 +9,7 @@ Model: `mapReduce f nil groups` (Model.lean) = every node folds its shard result
 arrival order, the coordinator folds the node results from nil in arrival order.
 -/
 import PV.C17.LemmasM
+import PV.C17.LemmasF
 namespace PV.C17
 open List K
 
@@ -478,6 +479,139 @@ theorem C17_pairs_sum (groups : List (List (List Pair))) :
 
 example : mapReduce pairsAdd [] [[[⟨1, 2⟩, ⟨3, 1⟩], [⟨3, 4⟩]], [[⟨0, 1⟩, ⟨1, 1⟩]]]
     = [⟨0, 1⟩, ⟨1, 3⟩, ⟨3, 5⟩] := by decide
+
+/-! ## Failover: `executor.mapReduce` as a transition system over response events
+
+`mapReduceFailover f e val nodes owners shards evs` (Model.lean): the first `mapper` call groups the
+shards by their first owner among `nodes` (`shardsByNode`); every event lets ANY request in flight
+answer, with its result or with an error; an error removes the node from `nodes` and regroups exactly
+the failed request's shards onto the remaining nodes (`errShardUnavailable` = the query fails);
+`shardN` accounting and the `shardN >= len(shards)` cut-off as coded.  `val s` is shard `s`'s
+result, `D` the reducer's domain. -/
+
+/-- Exactly once: in every reachable loop state the shards answered so far together with the shards
+of the requests in flight are — as a multiset — exactly the shards of the query, `shardN` counts
+the answered ones (and the loop has not reached the cut-off), and `result` is the reduce of the
+answered shards' results: no shard result is reduced twice, none is lost. -/
+theorem C17_failover_exactly_once {α : Type} {D : α → Prop} {f : α → α → α} {e : α} (L : Laws D f e)
+    (val : Nat → α) (hval : ∀ s, D (val s)) (nodes : List Nat) (owners : Nat → List Nat)
+    (shards : List Nat) (hne : shards ≠ []) (evs : List (Nat × Bool)) (s : MRState α)
+    (h : mapReduceFailover f e val nodes owners shards evs = .running s) :
+    ∃ answered : List Nat, (answered ++ s.pending.flatMap (·.shards)).Perm shards ∧
+      s.shardN = answered.length ∧ s.shardN < shards.length ∧
+      s.acc = reduceAll f e (answered.map val) := by
+  have := mrRun_post L val hval owners shards evs _ (mrStart_post f e val nodes owners shards hne)
+  unfold mapReduceFailover at h
+  rw [h] at this
+  exact this
+
+/-- For every failure pattern and completion order after which the query still succeeds, the
+result is the reduce over ALL shards, each exactly once — the order-free value. -/
+theorem C17_failover_result {α : Type} {D : α → Prop} {f : α → α → α} {e : α} (L : Laws D f e)
+    (val : Nat → α) (hval : ∀ s, D (val s)) (nodes : List Nat) (owners : Nat → List Nat)
+    (shards : List Nat) (hne : shards ≠ []) (evs : List (Nat × Bool)) (a : α)
+    (h : mapReduceFailover f e val nodes owners shards evs = .done a) :
+    a = reduceAll f e (shards.map val) := by
+  have := mrRun_post L val hval owners shards evs _ (mrStart_post f e val nodes owners shards hne)
+  unfold mapReduceFailover at h
+  rw [h] at this
+  exact this
+
+/-- … hence it equals the result of any failure-free execution (any grouping of the shards onto
+nodes, any arrival orders). -/
+theorem C17_failover_eq_no_failure {α : Type} {D : α → Prop} {f : α → α → α} {e : α} (L : Laws D f e)
+    (val : Nat → α) (hval : ∀ s, D (val s)) (nodes : List Nat) (owners : Nat → List Nat)
+    (shards : List Nat) (hne : shards ≠ []) (evs : List (Nat × Bool)) (a : α)
+    (h : mapReduceFailover f e val nodes owners shards evs = .done a)
+    (groups : List (List α)) (hg : groups.flatten.Perm (shards.map val)) :
+    a = mapReduce f e groups := by
+  rw [C17_failover_result L val hval nodes owners shards hne evs a h]
+  have hD : ∀ x ∈ groups.flatten, D x := by
+    intro x hx
+    rcases mem_map.mp (hg.mem_iff.mp hx) with ⟨y, _, rfl⟩
+    exact hval y
+  rw [C17_group L groups (fun g hg' x hx => hD x (mem_flatten.mpr ⟨g, hg', hx⟩))]
+  exact (C17_fold_perm L hg hD).symm
+
+/-- The loop never waits with nothing in flight. -/
+theorem C17_failover_never_hangs {α : Type} {D : α → Prop} {f : α → α → α} {e : α} (L : Laws D f e)
+    (val : Nat → α) (hval : ∀ s, D (val s)) (nodes : List Nat) (owners : Nat → List Nat)
+    (shards : List Nat) (hne : shards ≠ []) (evs : List (Nat × Bool)) :
+    mapReduceFailover f e val nodes owners shards evs ≠ .hang := by
+  intro h
+  have := mrRun_post L val hval owners shards evs _ (mrStart_post f e val nodes owners shards hne)
+  unfold mapReduceFailover at h
+  rw [h] at this
+  exact this
+
+/-- The query fails only when some shard has no remaining owner: a response event turns a loop
+state into `unavailable` only if it is an error response and some shard of the failed request has
+no owner among the remaining nodes; and the first `mapper` call fails iff some shard has no owner
+among the cluster's nodes. -/
+theorem C17_failover_fails_only_without_owner {α : Type} {D : α → Prop} {f : α → α → α} {e : α}
+    (L : Laws D f e) (val : Nat → α) (hval : ∀ s, D (val s)) (owners : Nat → List Nat)
+    (shards : List Nat) (s : MRState α) (ev : Nat × Bool)
+    (hinv : MRInv f e val shards s)
+    (h : mrStep f e val owners shards.length s ev = .unavailable) :
+    ev.2 = false ∧ ∃ req ∈ s.pending, ∃ sh ∈ req.shards,
+      ∀ n ∈ owners sh, n ∉ s.nodes.filter (fun n => n ≠ req.node) := by
+  have := mrStep_post L val hval owners shards s ev hinv
+  rw [h] at this
+  exact this
+
+theorem C17_failover_start_unavailable_iff {α : Type} (e : α) (nodes : List Nat)
+    (owners : Nat → List Nat) (shards : List Nat) :
+    mrStart e nodes owners shards = .unavailable ↔ ∃ s ∈ shards, ∀ n ∈ owners s, n ∉ nodes := by
+  unfold mrStart
+  rw [← shardsByNode_none_iff nodes owners shards []]
+  split <;> simp_all
+
+/-- Regrouping succeeds whenever every failed shard still has an owner. -/
+theorem C17_failover_regroup_available (nodes : List Nat) (owners : Nat → List Nat) (shards : List Nat)
+    (h : ∀ s ∈ shards, ∃ n ∈ owners s, n ∈ nodes) :
+    (shardsByNode nodes owners shards []).isSome := by
+  cases hs : shardsByNode nodes owners shards [] with
+  | some _ => rfl
+  | none =>
+    rcases (shardsByNode_none_iff nodes owners shards []).mp hs with ⟨s, hs', hno⟩
+    rcases h s hs' with ⟨n, hn, hmem⟩
+    exact absurd hmem (hno n hn)
+
+/-- Non-vacuity: 3 nodes, 2 replicas, node 1 answers with an error; its shard is regrouped onto
+node 2 and the Count is that of all three shards. -/
+example : mapReduceFailover (· + ·) 0 (fun s => 10 ^ s) [0, 1, 2] (fun s => [s % 3, (s + 1) % 3])
+    [0, 1, 2] [(0, true), (0, false), (0, true), (0, true)] = .done 111 := by decide
+
+/-- The seeded change "re-map ALL shards of the query after a failure instead of the failed
+request's shards" (`e.mapper(ctx, ch, nodes, index, shards, …)`), as a step function. -/
+def mrStepRemapAll {α : Type} (f : α → α → α) (e : α) (val : Nat → α) (owners : Nat → List Nat)
+    (allShards : List Nat) (s : MRState α) (ev : Nat × Bool) : MROut α :=
+  if s.pending.isEmpty then .hang else
+  let i := ev.1 % s.pending.length
+  let req := s.pending.getD i default
+  let pend := s.pending.eraseIdx i
+  if ev.2 then
+    let acc := f s.acc (nodeResult f e val req.shards)
+    let n := s.shardN + req.shards.length
+    if n ≥ allShards.length then .done acc else .running ⟨s.nodes, pend, acc, n⟩
+  else
+    let nodes := s.nodes.filter (fun n => n ≠ req.node)
+    match shardsByNode nodes owners allShards [] with
+    | none => .unavailable
+    | some reqs => .running ⟨nodes, pend ++ reqs, s.acc, s.shardN⟩
+
+def mrRunRemapAll {α : Type} (f : α → α → α) (e : α) (val : Nat → α) (owners : Nat → List Nat)
+    (allShards : List Nat) : MROut α → List (Nat × Bool) → MROut α
+  | .running s, ev :: evs =>
+    mrRunRemapAll f e val owners allShards (mrStepRemapAll f e val owners allShards s ev) evs
+  | o, _ => o
+
+/-- Witness that the property is sensitive to that change: on the scenario of the example above
+shard 0 is counted twice and shard 1 is dropped by the cut-off. -/
+theorem C17_failover_remap_all_witness :
+    mrRunRemapAll (· + ·) 0 (fun s => 10 ^ s) (fun s => [s % 3, (s + 1) % 3]) [0, 1, 2]
+      (mrStart 0 [0, 1, 2] (fun s => [s % 3, (s + 1) % 3]) [0, 1, 2])
+      [(0, true), (0, false), (0, true), (0, true)] = .done 102 := by decide
 
 /-! ## bool reducer (ClearRow / Store return value) -/
 
